@@ -48,7 +48,7 @@ BEGIN = '// >>> verif-injected (cfg(kani) only) >>>\n'
 END = '// <<< verif-injected <<<\n'
 
 
-def prepare(repo, work):
+def prepare(repo, work, shim=True):
     """Copy the repository sources and inject.  Returns a report dict; raises
     RuntimeError('lost anchor ...') if an insertion anchor is missing."""
     if os.path.exists(work):
@@ -100,10 +100,13 @@ def prepare(repo, work):
         report['files'][rel] = text.count('\n') - orig.count('\n')
         report['added_lines'] += report['files'][rel]
     # 3. memchr shim through [patch.crates-io] (Cargo.toml: lines appended)
-    shim = os.path.join(work, '.verif-shim')
-    shutil.copytree(os.path.join(VERIF, 'kx', 'shim'), shim)
-    with open(os.path.join(work, 'Cargo.toml'), 'a') as f:
-        f.write('\n[patch.crates-io]\nmemchr = { path = ".verif-shim/memchr" }\n')
+    if shim:
+        # Kani only: the real memchr crate dispatches on CPUID / SIMD, which CBMC cannot execute.
+        # Native (NX) runs use the real crate.
+        shimdir = os.path.join(work, '.verif-shim')
+        shutil.copytree(os.path.join(VERIF, 'kx', 'shim'), shimdir)
+        with open(os.path.join(work, 'Cargo.toml'), 'a') as f:
+            f.write('\n[patch.crates-io]\nmemchr = { path = ".verif-shim/memchr" }\n')
     os.makedirs(os.path.join(work, '.cargo'), exist_ok=True)
     with open(os.path.join(work, '.cargo', 'config.toml'), 'w') as f:
         f.write('[net]\noffline = true\n')
@@ -113,7 +116,7 @@ def prepare(repo, work):
     ct2 = ct.replace('    "web",\n', '')
     with open(os.path.join(work, 'Cargo.toml'), 'w') as f:
         f.write(ct2)
-    report['stubs'] = ['memchr crate replaced by kx/shim/memchr (naive loops) via [patch.crates-io]']
+    report['stubs'] = ['memchr crate replaced by kx/shim/memchr (naive loops) via [patch.crates-io]'] if shim else []
     return report
 
 
